@@ -179,6 +179,10 @@ def run(s):
                                                        "calculator.Calculator.write_output", "calculator.CijVolumeBaseInterface.write_variables"])
     # ---------------- 5. file round trip, bounded
     round_trip(s, cal)
+    # column labels P_MIN + j DELTA_P (j < NTV): the pressure grid the tables are written on comes from the QHA layer (qha_adapter.py); C06's obligation is registered here as well
+    if not s.__dict__.get("_p"):          # not when this check itself runs as a sub-session of another property
+        from props import C06
+        C06.run(core.SubSession(s, lambda n: n.replace("C06.", "C15.grid."), lambda n: n == "C06.pressure_grid_is_the_requested_one"))
     s.min_obligations = 3
 
 
